@@ -553,6 +553,22 @@ func opPtDec(fails *[]string, data []byte) string {
 			assertf(fails, q.Equal(&p), "ReadPoint and SetBytes decode different elements")
 		}
 	}
+	// the untrusted decision is a function of the bytes alone: it must not change after the
+	// trusted decoder (which accepts by contract) has seen the same bytes, nor when repeated
+	if len(data) == 32 {
+		var t, again banderwagon.Element
+		_ = t.SetBytesUnsafe(data)
+		err3 := again.SetBytes(data)
+		assertf(fails, (err == nil) == (err3 == nil), "SetBytes decides differently after SetBytesUnsafe saw the same bytes")
+		if err == nil && err3 == nil {
+			assertf(fails, again.Equal(&p), "SetBytes decodes a different element after SetBytesUnsafe saw the same bytes")
+		}
+		q2, err4 := common.ReadPoint(bytes.NewReader(data))
+		assertf(fails, (err == nil) == (err4 == nil), "ReadPoint decides differently after SetBytesUnsafe saw the same bytes")
+		if err == nil && err4 == nil {
+			assertf(fails, q2.Equal(&p), "ReadPoint decodes a different element after SetBytesUnsafe saw the same bytes")
+		}
+	}
 	if err != nil {
 		return "err"
 	}
@@ -582,6 +598,16 @@ func opPtDecUnc(fails *[]string, data []byte, trusted bool) string {
 	p := genMultiple(3) // a reused receiver
 	err := p.SetBytesUncompressed(data, trusted)
 	assertf(fails, bytes.Equal(orig, data), "SetBytesUncompressed modified its input")
+	if !trusted {
+		// history independence of the untrusted decision (trusted decoding of the same bytes in between)
+		var t, again banderwagon.Element
+		_ = t.SetBytesUncompressed(data, true)
+		err3 := again.SetBytesUncompressed(data, false)
+		assertf(fails, (err == nil) == (err3 == nil), "untrusted SetBytesUncompressed decides differently after the trusted path saw the same bytes")
+		if err == nil && err3 == nil {
+			assertf(fails, again.Equal(&p), "untrusted SetBytesUncompressed decodes a different element after the trusted path saw the same bytes")
+		}
+	}
 	if err != nil {
 		return "err"
 	}
@@ -936,8 +962,34 @@ func opCommit(fails *[]string, poly string) string {
 	// agrees with the generic MSM over the published SRS
 	g, err := ipa.MultiScalar(config().SRS[:len(v)], v)
 	assertf(fails, err == nil && g.Equal(&c), "Commit disagrees with the generic MSM over the SRS")
+	// history independence: the same vector committed again after a dense full-length commitment
+	// (and after a short dense one) gives the same element
+	nz := 0
+	for i := range v {
+		if !v[i].IsZero() {
+			nz++
+		}
+	}
+	if len(v) < 256 || nz >= 32 {
+		_ = config().Commit(warmDense[:256])
+		c2 := config().Commit(v)
+		assertf(fails, c2.Equal(&c), "Commit of the same vector differs after a dense 256-coefficient Commit")
+		_ = config().Commit(warmDense[:97])
+		c3 := config().Commit(v)
+		assertf(fails, c3.Equal(&c), "Commit of the same vector differs after a dense 97-coefficient Commit")
+	}
 	return ptHex(&c)
 }
+
+// warmDense: a fixed dense vector used to put the commitment engine into a "used" state
+var warmDense = func() []fr.Element {
+	out := make([]fr.Element, 256)
+	for i := range out {
+		out[i].SetUint64(uint64(0x9e3779b97f4a7c15) + uint64(i)*0x100000001b3)
+		out[i].Square(&out[i])
+	}
+	return out
+}()
 
 func opPtab(fails *[]string, i, k, j int) string {
 	x, y, t := banderwagon.VerifPrecompEntry(&config().PrecompMSM, i, k, j)
